@@ -59,21 +59,23 @@ type caseData struct {
 // ---- template generator ----
 
 var fragments = map[string]string{
-	"macro-tag":     `{% macro Row(s string, i int) %}<li>{{ tag(rid + ":" + s) }}-{{ i }}</li>{% end %}{% for i, it := range items %}{{ Row(it, i) }}{% end %}`,
-	"variadic":      `{{ join(rid, "a", "b") }}|{{ join() }}|{{ join(items...) }}`,
-	"callback":      `{{ apply(func(s string) string { return s + rid }, "x") }}`,
-	"func-value":    `{% f := mk() %}{{ f(n) }}{% h := mk2(n) %}{{ h("q") }}`,
-	"method-value":  `{{ obj.Add(n) }}{% g := obj.Add %}{{ g(2) }}{{ obj.Name() }}`,
-	"kv":            `{%% for j := 0; j < n+1; j++ { t0 := clock(); kvput(key, rid+"#"+sprint(j)); oplog(rid, "put", key, rid+"#"+sprint(j), t0, clock()); t1 := clock(); v := kvget(key); oplog(rid, "get", key, v, t1, clock()) } %%}`,
-	"sum-loop":      `{% var total = 0 %}{% for _, v := range nums %}{% total += v * n %}{% end %}{{ total }}`,
-	"closure-state": `{% c := 0 %}{% inc := func() int { c += n; return c } %}{{ inc() }}{{ inc() }}{{ inc() }}`,
-	"macro-string":  `{% macro Wrap(s string) string %}[{{ s }}:{{ rid }}]{% end %}{% w := Wrap(sprint(n)) %}{{ tag(rid + ":" + w) }}`,
-	"map-build":     `{% m := map[string]int{} %}{% for i, it := range items %}{% m[it] = i + n %}{% end %}{{ len(m) }}{% for _, it := range items %}{{ m[it] }},{% end %}`,
-	"env-native":    `{{ whoami() }}`,
-	"defer-recover": `{%% func() { defer func() { _ = recover(); note(rid) }(); var z []int; _ = z[n] }() %%}{{ notes() }}`,
-	"global-write":  `{% n = n + 1 %}{{ n }}{% items = append(items, rid) %}{{ len(items) }}`,
-	"partial":       `{{ render "part.html" }}{{ render "part.html" }}`,
-	"import-macro":  `{{ Lib(rid, n) }}`,
+	"macro-tag":          `{% macro Row(s string, i int) %}<li>{{ tag(rid + ":" + s) }}-{{ i }}</li>{% end %}{% for i, it := range items %}{{ Row(it, i) }}{% end %}`,
+	"variadic":           `{{ join(rid, "a", "b") }}|{{ join() }}|{{ join(items...) }}`,
+	"callback":           `{{ apply(func(s string) string { return s + rid }, "x") }}`,
+	"callback-recovered": `{%% func() { defer func() { _ = recover(); note(rid) }(); _ = apply(func(s string) string { var z []int; _ = z[n]; return s }, "z") }() %%}{{ apply(func(s string) string { return s + rid }, "w") }}`,
+	"callback-panic":     `{{ apply(func(s string) string { if n%3 == 1 { var z []int; _ = z[n] }; return s + rid }, "y") }}`,
+	"func-value":         `{% f := mk() %}{{ f(n) }}{% h := mk2(n) %}{{ h("q") }}`,
+	"method-value":       `{{ obj.Add(n) }}{% g := obj.Add %}{{ g(2) }}{{ obj.Name() }}`,
+	"kv":                 `{%% for j := 0; j < n+1; j++ { t0 := clock(); kvput(key, rid+"#"+sprint(j)); oplog(rid, "put", key, rid+"#"+sprint(j), t0, clock()); t1 := clock(); v := kvget(key); oplog(rid, "get", key, v, t1, clock()) } %%}`,
+	"sum-loop":           `{% var total = 0 %}{% for _, v := range nums %}{% total += v * n %}{% end %}{{ total }}`,
+	"closure-state":      `{% c := 0 %}{% inc := func() int { c += n; return c } %}{{ inc() }}{{ inc() }}{{ inc() }}`,
+	"macro-string":       `{% macro Wrap(s string) string %}[{{ s }}:{{ rid }}]{% end %}{% w := Wrap(sprint(n)) %}{{ tag(rid + ":" + w) }}`,
+	"map-build":          `{% m := map[string]int{} %}{% for i, it := range items %}{% m[it] = i + n %}{% end %}{{ len(m) }}{% for _, it := range items %}{{ m[it] }},{% end %}`,
+	"env-native":         `{{ whoami() }}`,
+	"defer-recover":      `{%% func() { defer func() { _ = recover(); note(rid) }(); var z []int; _ = z[n] }() %%}{{ notes() }}`,
+	"global-write":       `{% n = n + 1 %}{{ n }}{% items = append(items, rid) %}{{ len(items) }}`,
+	"partial":            `{{ render "part.html" }}{{ render "part.html" }}`,
+	"import-macro":       `{{ Lib(rid, n) }}`,
 }
 
 func genTemplate(r interface{ Intn(int) int }) (map[string]string, []string) {
